@@ -44,6 +44,7 @@ BOUND = ('bodies of length 0..9 (quick) / 0..12 (thorough) over a 3-letter alpha
          'multipart body with a look-alike delimiter x epilogue in {none, CRLF, text with a further delimiter} x CL in {n, n-1, up to the '
          'closing delimiter, n+2} x max_memfile_size 1/7/18/64/4096 x 9 fragmentations (1/2/3/18-byte reads, cuts at and around the '
          'closing delimiter) x {application handler, bare Request}, and the same grid over 5 byte strings that are NOT well-formed multipart under the multipart type; '
+         'Content-Length given as text with optional whitespace / leading zeros (" 11", "11 ", TAB 11, "011", " 0 ", "5 ") x 3 thresholds x 3 fragmentations; '
          'Request.copy(): payload of 1/4/9 bytes followed by 4 bytes of the next request x CL in {0,n,n+2,n+6} x max_memfile_size '
          '1/3/16 x 4 scripts x 2 tails x {application handler, bare Request} x order {original read first then copy, copy of the '
          'copy, original again; copy taken before any access and only the copies read} x max_body_size {none, 2 = refusal '
@@ -171,6 +172,13 @@ def gen_cases(tier, seed):
                                          ((len(mp) - 1, 1), 1)):
                         for kind in ('req', 'app'):
                             yield dict(kind=kind, data=data, cl=cl, buff=buff, script=list(script), tail=tail, method='POST', ctype=ctype)
+    # the Content-Length TEXT as a server may hand it over: optional whitespace around the number, leading zeros
+    for cl_text, cl in ((' 11', 11), ('11 ', 11), ('\t11', 11), ('011', 11), (' 0 ', 0), ('5 ', 5)):
+        data = b'hello world and the next request'
+        for buff in (1, 4, 64):
+            for script, tail in (((), 0), ((), 1), ((3, 1), 2)):
+                for kind in ('req', 'app'):
+                    yield dict(kind=kind, data=data, cl=cl, buff=buff, script=list(script), tail=tail, method='POST', cl_text=cl_text)
     rnd = random.Random(seed + 1)
     for _ in range(300 if tier == 'quick' else 3000):
         n = rnd.randrange(0, 400)
@@ -236,6 +244,8 @@ def run_case(case):
         env = make_environ('/b', method or 'GET', stream=stream, content_length=(None if cl < 0 else cl))
         if case.get('ctype'):
             env['CONTENT_TYPE'] = case['ctype']
+        if case.get('cl_text') is not None:
+            env['CONTENT_LENGTH'] = case['cl_text']
         if method is None:
             del env['REQUEST_METHOD']
         req = Request(env, config={'max_memfile_size': buff})
@@ -264,6 +274,8 @@ def run_case(case):
     env = make_environ('/b', method, stream=stream, content_length=(None if cl < 0 else cl))
     if case.get('ctype'):
         env['CONTENT_TYPE'] = case['ctype']
+    if case.get('cl_text') is not None:
+        env['CONTENT_LENGTH'] = case['cl_text']
     res = serve(app, env)
     if res.code != 200:
         return fail('K3.status', status=res.status, errors=res.errors[-400:])
